@@ -133,34 +133,36 @@ fn all_vectors(n: usize, specs: &[ChildSpec]) -> Vec<Vec<ChildSpec>> {
 
 fn join_cfgs(prop: &'static str, max_n: usize, depth: usize, post: usize, epi: Epilogue) -> Vec<Cfg> {
     let mut v = vec![];
-    for n in 0..=max_n {
-        for pre in all_vectors(n, &[f(Mode::Gate), f(Mode::Ready)]) {
-            let mut c = Cfg::new(prop, Kind::Ja(n));
-            c.name = format!("join_all[{}]", pre.iter().map(|p| p.render()).collect::<Vec<_>>().join(","));
-            c.prefill = pre;
-            c.ops = ops::POLL | ops::COMPLETE | ops::WAKE;
-            c.costly = ops::WAKE;
-            c.delta = 1;
-            c.depth = depth;
-            c.post_ready_polls = post;
-            c.epilogue = epi;
-            v.push(c);
-        }
-        let tn = n.min(3.max(max_n.saturating_sub(1)));
-        if n > tn {
-            continue;
-        }
-        for pre in all_vectors(n, &[f(Mode::Gate), f(Mode::Ready), ChildSpec::failing(Mode::Gate), ChildSpec::failing(Mode::Ready)]) {
-            let mut c = Cfg::new(prop, Kind::Tja(n));
-            c.name = format!("try_join_all[{}]", pre.iter().map(|p| p.render()).collect::<Vec<_>>().join(","));
-            c.prefill = pre;
-            c.ops = ops::POLL | ops::COMPLETE | ops::WAKE;
-            c.costly = ops::WAKE;
-            c.delta = 1;
-            c.depth = depth;
-            c.post_ready_polls = post;
-            c.epilogue = epi;
-            v.push(c);
+    for plain in [false, true] {
+        for n in 0..=max_n {
+            for pre in all_vectors(n, &[f(Mode::Gate), f(Mode::Ready)]) {
+                let mut c = Cfg::new(prop, if plain { Kind::JaP(n) } else { Kind::Ja(n) });
+                c.name = format!("join_all{}[{}]", if plain { "<plain>" } else { "" }, pre.iter().map(|p| p.render()).collect::<Vec<_>>().join(","));
+                c.prefill = pre;
+                c.ops = ops::POLL | ops::COMPLETE | ops::WAKE;
+                c.costly = ops::WAKE;
+                c.delta = 1;
+                c.depth = depth;
+                c.post_ready_polls = post;
+                c.epilogue = epi;
+                v.push(c);
+            }
+            let tn = n.min(3.max(max_n.saturating_sub(1)));
+            if n > tn {
+                continue;
+            }
+            for pre in all_vectors(n, &[f(Mode::Gate), f(Mode::Ready), ChildSpec::failing(Mode::Gate), ChildSpec::failing(Mode::Ready)]) {
+                let mut c = Cfg::new(prop, if plain { Kind::TjaP(n) } else { Kind::Tja(n) });
+                c.name = format!("try_join_all{}[{}]", if plain { "<plain>" } else { "" }, pre.iter().map(|p| p.render()).collect::<Vec<_>>().join(","));
+                c.prefill = pre;
+                c.ops = ops::POLL | ops::COMPLETE | ops::WAKE;
+                c.costly = ops::WAKE;
+                c.delta = 1;
+                c.depth = depth;
+                c.post_ready_polls = post;
+                c.epilogue = epi;
+                v.push(c);
+            }
         }
     }
     v
@@ -406,6 +408,32 @@ pub fn scenarios(prop: &str, tier: &str) -> Vec<Cfg> {
                 c.ops = ops::PUSH | ops::POLL | ops::COMPLETE | ops::STALE_WAKE;
                 c.depth = d;
                 c.epilogue = Epilogue::Drain;
+                v.push(c);
+            }
+            // more sources ending within one poll than the per-poll budget, in one group
+            for (k, n, sc) in [(Kind::Mb(64), 64usize, ""), (Kind::Mb(100), 100, "I"), (Kind::Mb(70), 70, "P"), (Kind::Mu(100), 100, ""), (Kind::Mu(100), 100, "I"), (Kind::Mu(100), 100, "PI")] {
+                let mut c = Cfg::new("C05", k);
+                c.name = format!("{:?} all sources {}E", k, sc);
+                c.prefill = (0..n).map(|_| s(sc)).collect();
+                c.ops = ops::POLL | ops::COMPLETE | ops::STALE_WAKE;
+                c.costly = ops::COMPLETE | ops::STALE_WAKE;
+                c.delta = 2;
+                c.depth = 4;
+                c.focus = focus_of(n);
+                c.epilogue = Epilogue::Drain;
+                c.horizon = 4000;
+                v.push(c);
+            }
+            for (k, n) in [(Kind::Fub(100), 100usize), (Kind::FuNew, 100), (Kind::FoNew, 70)] {
+                let mut c = Cfg::new("C05", k);
+                c.name = format!("{:?} prefilled {} ready", k, n);
+                c.prefill = (0..n).map(|i| f(if i % 2 == 0 { Mode::Ready } else { Mode::WakeReady })).collect();
+                c.ops = ops::POLL | ops::STALE_WAKE;
+                c.delta = 2;
+                c.depth = 3;
+                c.focus = focus_of(n);
+                c.epilogue = Epilogue::Drain;
+                c.horizon = 4000;
                 v.push(c);
             }
             for k in adapters(&[1, 2]) {
@@ -697,6 +725,31 @@ pub fn scenarios(prop: &str, tier: &str) -> Vec<Cfg> {
                         }
                     }
                 }
+            }
+            // populations that do NOT wake themselves, above the per-poll budget: a poll that stops
+            // early must have woken its task
+            for (k, n, sp) in [
+                (Kind::Fub(130), 130usize, f(Mode::Gate)),
+                (Kind::Fub(130), 62, f(Mode::Gate)),
+                (Kind::Fub(130), 63, f(Mode::Gate)),
+                (Kind::FubIter(100), 100, f(Mode::Gate)),
+                (Kind::FuNew, 100, f(Mode::Gate)),
+                (Kind::FoNew, 100, f(Mode::Gate)),
+                (Kind::Fob(100), 100, f(Mode::Gate)),
+                (Kind::Mb(70), 70, s("P")),
+                (Kind::Mb(100), 100, s("PI")),
+                (Kind::Mu(100), 100, s("P")),
+                (Kind::Ja(70), 70, f(Mode::Gate)),
+            ] {
+                let mut c = Cfg::new("C13", k);
+                c.name = format!("{:?} {}x{} (no self-wake)", k, n, sp.render());
+                c.prefill = (0..n).map(|_| sp.clone()).collect();
+                c.ops = ops::POLL | ops::COMPLETE | ops::WAKE;
+                c.focus = Some(vec![0, 61, 62, (n - 1) as u32]);
+                c.depth = if thorough { 5 } else { 4 };
+                c.epilogue = Epilogue::Starve;
+                c.horizon = 100_000;
+                v.push(c);
             }
             // adapters: the population comes from upstream (self-waking futures), the victim is a gate
             for k in [Kind::Bu(3), Kind::Bo(3), Kind::Tbu(3), Kind::Fec(3), Kind::Bu(2)] {
